@@ -115,7 +115,7 @@ upgrades = [
     k(UPG, T + "c15_upgrader_upgrade", "Upgrader::upgrade"),
 ]
 checks["C12"] = {"kani": token_all}
-checks["C14"] = {"kani": gas_all}
+checks["C14"] = {"kani": [dict(h, also=["C06.collect", "C06.refund", "C07.pay_gas", "C07.add_gas"]) for h in gas_all]}
 checks["C17"] = {"scans": ["c17_writers"], "kani": ops_all}
 checks["C15"] = {"kani": upgrades}
 checks["C16"] = {"kani": [k(GW, "executable::verif::c16_default_validate_message", "AxelarExecutableInterface::validate_message (default)"), k(EX, T + "c16_example_execute", "Example::execute"),
@@ -136,19 +136,28 @@ checks["C07"] = {"kani": [
 
 
 its = lambda h, f, **kw: k(ITS, T + h, "InterchainTokenService::" + f, **kw)
-its_c04 = its("c04_execute", "execute / execute_message / get_execute_params / deploy_interchain_token_contract / token_handler::give_token")
-checks["C04"] = {"kani": [its_c04, k(GW, "executable::verif::c16_default_validate_message", "AxelarExecutableInterface::validate_message (default)", also=["C16.default"]),
+its_c04 = [
+    its("c04_execute_entry", "execute"),
+    its("c04_get_execute_params", "get_execute_params"),
+    its("c04_execute_message_transfer", "execute_message (transfer arm) / token_handler::give_token"),
+    its("c04_execute_message_deploy", "execute_message (deploy arm) / deploy_interchain_token_contract / set_token_id_config"),
+]
+codec_amount = k(ITS, "abi::verif::c10_to_i128_full_domain", "abi::to_i128 (assumption of the decode contract used here)", also=["C10.amount"])
+checks["C04"] = {"kani": its_c04 + [codec_amount, k(GW, "executable::verif::c16_default_validate_message", "AxelarExecutableInterface::validate_message (default)", also=["C16.default"]),
                           its("c06_its_constructor_and_views", "__constructor / views", also=["C04.hub_chain_name_constant"])]}
 checks["C05"] = {"kani": [
     its("c05_pay_gas_and_call_contract", "pay_gas_and_call_contract"), its("c05_interchain_transfer", "interchain_transfer / token_handler::take_token"),
     k(ITS, "token_handler::verif::c05_take_token", "token_handler::take_token"), k(ITS, "token_handler::verif::c05_give_token", "token_handler::give_token"),
-    its_c04,
+    its_c04[2], codec_amount,
+    # the token contract the service relies on for burns / mints / custody transfers (C12)
+    tok("c12_transfer", "transfer", also=["C12.transfer", "C12.self_transfer", "C12.balances"]), tok("c12_burn", "burn", also=["C12.burn"]),
+    tok("c12_mint_from", "mint_from", also=["C12.mint", "C12.only_current", "C12.refused_mint"]), tok("c12_owner_mint", "mint", also=["C12.owner_mint"]),
 ]}
 checks["C11"] = {"kani": [
     its("c11_id_derivations", "interchain_token_deploy_salt / interchain_token_id / canonical_token_deploy_salt"),
     its("c11_deploy_interchain_token", "deploy_interchain_token / deploy_interchain_token_contract"),
     its("c11_register_canonical_token", "register_canonical_token"), its("c11_registry_views", "token_address / token_manager_type"),
-    its_c04,
+    its_c04[3],
     tok("c11_token_constructor", "__constructor"), tok("c11_token_views", "token_id / is_minter / decimals / name / symbol"),
 ]}
 checks["C18"] = {"kani": [
